@@ -97,6 +97,23 @@ def check(model: Model, run: Run) -> None:
         if not ok:
             run.fail(Finding("L3-residue-writers", fq, norm(n), "the incoming buffer is written outside __init__/receive", model.loc(f2.module, n)))
     run.floor("incoming buffer writers", len(writers), 2)
+    # who may look at the residue: only receive (and the decode helpers it hands the reader to).  Anything else that branches on
+    # the residue makes the outcome depend on where the stream happened to be cut.
+    from ..regions import decode_region
+    region_q = {r.fi.qualname for r in decode_region(model)}
+    n_readers = 0
+    for fq, f2 in model.functions.items():
+        if isinstance(f2.node, ast.Lambda):
+            continue
+        for n in ast.walk(f2.node):
+            if isinstance(n, ast.Attribute) and n.attr == IBUF and isinstance(n.ctx, ast.Load):
+                n_readers += 1
+                ok = fq in region_q or (f2.cls in SESSION_CLASSES and f2.name == "__init__")
+                run.ob("L3-residue-readers", ok, {"function": fq})
+                if not ok:
+                    run.fail(Finding("L3-residue-readers", fq, norm(n), f"{fq.split('sansldap.')[-1]} reads the pending-bytes buffer: its behaviour then depends on how the stream was chunked, "
+                                     "not on what the peer sent", model.loc(f2.module, n)))
+    run.floor("incoming buffer reads", n_readers, 2)
     # ---- early returns (shared with C06 Q4)
     body = fi.node.body
     final = body[-1] if body and isinstance(body[-1], ast.Return) else None
